@@ -7,7 +7,10 @@ package main
 //     0 usersLock.Lock()   1 defer usersLock.Unlock()   2 usersLock.Unlock()
 //     3 read of connections (also: a call of validateAndGetUser)   4 store into connections[…]
 //     5 read of oldConnections                                     6 store into oldConnections[…]
-// in execution order.  SA.Props.C13 (`C13_table_ops_atomic`) checks every path: every access happens while the lock is
+// in execution order.  A call of an unexported helper/method of the same package (other than validateAndGetUser, which
+// counts as a read of connections) continues inside the helper: its paths are inlined at the call (lkEval), so the fact is
+// about what the operation does, not about which function body the statements are written in.  A `switch` gives the same
+// paths as the if / else-if chain it abbreviates.  SA.Props.C13 (`C13_table_ops_atomic`) checks every path: every access happens while the lock is
 // held and all accesses of a path lie in ONE critical section (no Unlock between the first and the last access) -- this is
 // what makes the model's `newUser` / `closeConnection` / `expire` atomic steps.
 
@@ -15,6 +18,7 @@ import (
 	"fmt"
 	"go/ast"
 	"go/token"
+	"path/filepath"
 	"strings"
 )
 
@@ -50,12 +54,34 @@ func lkTable(e ast.Expr) int {
 	return -1
 }
 
-// lkExpr: the events of evaluating an expression (source order; function literals are not entered)
-func lkExpr(n ast.Node) (ev []int) {
+// the package's functions (for following calls into unexported helpers) and the helpers being inlined right now
+var lkFuncs map[string][]*ast.FuncDecl
+var lkInlining []*ast.FuncDecl
+
+// lkItem: an event, or (callee != nil) a call of an unexported helper of the package whose body is inlined at this point
+type lkItem struct {
+	ev     int
+	callee *ast.FuncDecl
+}
+
+// lkItems: the events of evaluating an expression (source order; a helper's body comes after the call's arguments;
+// function literals are not entered)
+func lkItems(n ast.Node) (items []lkItem) {
 	if n == nil {
 		return nil
 	}
+	var stack []ast.Node
 	ast.Inspect(n, func(x ast.Node) bool {
+		if x == nil {
+			top := stack[len(stack)-1]
+			stack = stack[:len(stack)-1]
+			if call, ok := top.(*ast.CallExpr); ok {
+				if fd := c13Callee(lkFuncs, call); fd != nil && fd.Name.Name != "validateAndGetUser" {
+					items = append(items, lkItem{callee: fd})
+				}
+			}
+			return true
+		}
 		switch v := x.(type) {
 		case *ast.FuncLit:
 			return false
@@ -64,27 +90,71 @@ func lkExpr(n ast.Node) (ev []int) {
 				if strings.HasSuffix(exprString(s.X), "usersLock") {
 					switch s.Sel.Name {
 					case "Lock":
-						ev = append(ev, lkLock)
+						items = append(items, lkItem{ev: lkLock})
 						return false
 					case "Unlock":
-						ev = append(ev, lkUnlock)
+						items = append(items, lkItem{ev: lkUnlock})
 						return false
 					default:
 						fail("lock structure: unexpected call usersLock.%s", s.Sel.Name)
 					}
 				}
 				if s.Sel.Name == "validateAndGetUser" {
-					ev = append(ev, lkReadLive)
+					items = append(items, lkItem{ev: lkReadLive})
 				}
 			}
 		case *ast.SelectorExpr:
 			if t := lkTable(v); t >= 0 {
-				ev = append(ev, t)
+				items = append(items, lkItem{ev: t})
 			}
 		}
+		stack = append(stack, x)
 		return true
 	})
-	return ev
+	return items
+}
+
+// lkEval extends every path by the events of evaluating the given expressions; a call of an unexported helper of the
+// package continues inside the helper (at most 3 levels, no recursion): each of the helper's control-flow paths is a
+// continuation, its `return` ends the helper only, and a `defer usersLock.Unlock()` of the helper runs when it returns.
+func lkEval(ps []lkPath, nodes ...ast.Node) []lkPath {
+	for _, n := range nodes {
+		for _, it := range lkItems(n) {
+			if it.callee == nil {
+				ps = lkAppend(ps, []int{it.ev})
+				continue
+			}
+			fd, skip := it.callee, len(lkInlining) >= 3
+			for _, g := range lkInlining {
+				skip = skip || g == fd
+			}
+			if skip {
+				continue
+			}
+			lkInlining = append(lkInlining, fd)
+			ps = lkEach(ps, func(p lkPath) []lkPath {
+				qs := lkStmts([]lkPath{{}}, fd.Body.List)
+				for i, q := range qs {
+					var ev []int
+					deferred := false
+					for _, e := range q.ev {
+						if e == lkDeferUnlock {
+							deferred = true
+						} else {
+							ev = append(ev, e)
+						}
+					}
+					if deferred {
+						ev = append(ev, lkUnlock)
+					}
+					qs[i] = p.with(ev...)
+				}
+				return qs
+			})
+			lkInlining = lkInlining[:len(lkInlining)-1]
+		}
+	}
+	return ps
 }
 
 func lkEach(ps []lkPath, f func(p lkPath) []lkPath) []lkPath {
@@ -134,7 +204,7 @@ func lkStmt(ps []lkPath, s ast.Stmt) []lkPath {
 	case *ast.BlockStmt:
 		return lkStmts(ps, x.List)
 	case *ast.ExprStmt:
-		return lkAppend(ps, lkExpr(x.X))
+		return lkEval(ps, x.X)
 	case *ast.DeferStmt:
 		if sel, ok := x.Call.Fun.(*ast.SelectorExpr); ok && strings.HasSuffix(exprString(sel.X), "usersLock") {
 			if sel.Sel.Name == "Unlock" {
@@ -146,25 +216,22 @@ func lkStmt(ps []lkPath, s ast.Stmt) []lkPath {
 	case *ast.GoStmt:
 		return ps
 	case *ast.AssignStmt:
-		var ev []int
 		for _, r := range x.Rhs {
-			ev = append(ev, lkExpr(r)...)
+			ps = lkEval(ps, r)
 		}
 		for _, l := range x.Lhs {
 			if ix, ok := l.(*ast.IndexExpr); ok && lkTable(ix.X) >= 0 {
-				ev = append(ev, lkExpr(ix.Index)...)
-				ev = append(ev, lkTable(ix.X)+1) // the store
+				ps = lkEval(ps, ix.Index)
+				ps = lkAppend(ps, []int{lkTable(ix.X) + 1}) // the store
 			} else {
-				ev = append(ev, lkExpr(l)...)
+				ps = lkEval(ps, l)
 			}
 		}
-		return lkAppend(ps, ev)
+		return ps
 	case *ast.ReturnStmt:
-		var ev []int
 		for _, r := range x.Results {
-			ev = append(ev, lkExpr(r)...)
+			ps = lkEval(ps, r)
 		}
-		ps = lkAppend(ps, ev)
 		return lkEach(ps, func(p lkPath) []lkPath { p.done = true; return []lkPath{p} })
 	case *ast.BranchStmt:
 		if x.Tok == token.GOTO || x.Label != nil {
@@ -173,7 +240,7 @@ func lkStmt(ps []lkPath, s ast.Stmt) []lkPath {
 		return lkEach(ps, func(p lkPath) []lkPath { p.brk = true; return []lkPath{p} })
 	case *ast.IfStmt:
 		ps = lkStmt(ps, x.Init)
-		ps = lkAppend(ps, lkExpr(x.Cond))
+		ps = lkEval(ps, x.Cond)
 		return lkEach(ps, func(p lkPath) []lkPath {
 			then := lkStmts([]lkPath{p}, x.Body.List)
 			if x.Else != nil {
@@ -183,17 +250,17 @@ func lkStmt(ps []lkPath, s ast.Stmt) []lkPath {
 		})
 	case *ast.ForStmt:
 		ps = lkStmt(ps, x.Init)
-		ps = lkAppend(ps, lkExpr(x.Cond))
+		ps = lkEval(ps, x.Cond)
 		return lkLoop(ps, x.Body, x.Post)
 	case *ast.RangeStmt:
-		ps = lkAppend(ps, lkExpr(x.X))
+		ps = lkEval(ps, x.X)
 		return lkLoop(ps, x.Body, nil)
 	case *ast.SwitchStmt, *ast.TypeSwitchStmt, *ast.SelectStmt:
 		var body *ast.BlockStmt
 		switch y := x.(type) {
 		case *ast.SwitchStmt:
 			ps = lkStmt(ps, y.Init)
-			ps = lkAppend(ps, lkExpr(y.Tag))
+			ps = lkEval(ps, y.Tag)
 			body = y.Body
 		case *ast.TypeSwitchStmt:
 			ps = lkStmt(ps, y.Init)
@@ -203,37 +270,41 @@ func lkStmt(ps []lkPath, s ast.Stmt) []lkPath {
 			body = y.Body
 		}
 		return lkEach(ps, func(p lkPath) []lkPath {
-			out := []lkPath{p} // no clause taken
+			// the clauses in source order, then "no clause taken" -- the order an if / else-if chain gives
+			var out []lkPath
+			hasDefault := false
 			for _, c := range body.List {
 				var list []ast.Stmt
-				var head []int
+				heads := []lkPath{p}
 				switch cc := c.(type) {
 				case *ast.CaseClause:
+					hasDefault = hasDefault || cc.List == nil
 					for _, e := range cc.List {
-						head = append(head, lkExpr(e)...)
+						heads = lkEval(heads, e)
 					}
 					list = cc.Body
 				case *ast.CommClause:
-					q := lkStmt([]lkPath{{}}, cc.Comm)
-					if len(q) > 0 {
-						head = q[0].ev
-					}
+					hasDefault = hasDefault || cc.Comm == nil
+					heads = lkStmt(heads, cc.Comm)
 					list = cc.Body
 				}
-				br := lkStmts([]lkPath{p.with(head...)}, list)
+				br := lkStmts(heads, list)
 				for i := range br {
 					br[i].brk = false // a break inside a switch leaves the switch
 				}
 				out = append(out, br...)
 			}
+			if !hasDefault {
+				out = append(out, p) // no clause taken
+			}
 			return out
 		})
 	case *ast.SendStmt:
-		return lkAppend(ps, append(lkExpr(x.Chan), lkExpr(x.Value)...))
+		return lkEval(ps, x.Chan, x.Value)
 	case *ast.IncDecStmt:
-		return lkAppend(ps, lkExpr(x.X))
+		return lkEval(ps, x.X)
 	case *ast.DeclStmt:
-		return lkAppend(ps, lkExpr(x.Decl))
+		return lkEval(ps, x.Decl)
 	case *ast.LabeledStmt:
 		return lkStmt(ps, x.Stmt)
 	case *ast.EmptyStmt:
@@ -265,6 +336,7 @@ func init() {
 	extractors = append(extractors, func(o *out) {
 		const file = "internal/streams/dns/dns_server_connection.go"
 		f := parse(file)
+		lkFuncs, lkInlining = c13PkgFuncs(filepath.Dir(file)), nil
 		b := o.w("C13Locks.lean")
 		fmt.Fprintf(b, "/-- %s: the control-flow paths of the operations on the session tables as sequences of\n"+
 			"    0 usersLock.Lock()  1 defer usersLock.Unlock()  2 usersLock.Unlock()  3 read connections  4 store connections[…]\n"+
@@ -278,23 +350,16 @@ func init() {
 			}
 			fmt.Fprintf(b, "def lockPaths_%s : List (List Nat) :=\n  %s\n", fn, lkPaths(d.Body))
 		}
-		// the pruning task: the first goroutine started in NewServerDnsListener
-		var goFn *ast.FuncLit
+		// the pruning task: the first goroutine started in NewServerDnsListener (a function literal or a helper)
+		var goBody *ast.BlockStmt
 		if ctor := findFunc(f, "", "NewServerDnsListener"); ctor != nil {
-			ast.Inspect(ctor.Body, func(n ast.Node) bool {
-				if g, ok := n.(*ast.GoStmt); ok && goFn == nil {
-					if fl, ok := g.Call.Fun.(*ast.FuncLit); ok {
-						goFn = fl
-					}
-				}
-				return true
-			})
+			goBody, _ = c13GoBody(lkFuncs, ctor)
 		}
-		if goFn == nil {
+		if goBody == nil {
 			fail("pruning goroutine not found in NewServerDnsListener")
 			fmt.Fprintf(b, "def lockPaths_expiry : List (List Nat) := []\n")
 		} else {
-			fmt.Fprintf(b, "def lockPaths_expiry : List (List Nat) :=\n  %s\n", lkPaths(goFn.Body))
+			fmt.Fprintf(b, "def lockPaths_expiry : List (List Nat) :=\n  %s\n", lkPaths(goBody))
 		}
 	})
 }
